@@ -13,6 +13,7 @@ import Pandora.Proofs.C07Frame
 import Pandora.Proofs.C07Prov
 import Pandora.Proofs.C07Enrich
 import Pandora.Proofs.C07Json
+import Pandora.Proofs.C07Build
 import Pandora.Bridge.C07
 
 namespace Pandora.Props.C07
@@ -941,5 +942,138 @@ example : exEnts ≠ [] ∧ allJWs [32, 10] = true ∧ allJWs [] = true ∧ allJ
     ∧ utf8Valid (renderStreamJ [32, 10] [] [10, 10] exEnts) = true
     ∧ utf8Valid ([10] ++ 91 :: renderElemsJ [] [32] [9] [13, 10] exEnts) = true := by decide
 
+
+/-! ### round 6 — `BuildRequest` is a pure function of the decoded entry (reference level, `Pandora.Model.C07Build`) -/
+
+/-- every request built from a decoded entry looks as the entry says, however often the entry has been built from before
+and whatever the owners of the earlier requests did to them with operations in `allowed` -/
+def C07_build_pure_statement (o : UrlOrigin) (allowed : BMut → Bool) : Prop :=
+  ∀ (e : BEntry) (h0 : BHeap) (rounds : List (List BMut)), entryOK o e h0 →
+    (∀ ms ∈ rounds, ∀ m ∈ ms, allowed m = true) →
+    ∀ ob ∈ bRounds o e h0 rounds, ob = bExpect e h0
+
+/-- **the same decoded entry always yields the same request** (preload, the http/json array, any wrap-around, any number
+of consumers one after the other): with the URL parsed anew at every build (`UrlOrigin.fresh`: `http.NewRequest` with the
+URL string) nothing the gun (`req.URL.Scheme`, `req.URL.Host`, `req.Host`), the client (the body) or a middleware
+(`Header.Set` / `Add` / `Del`, path and query) does to a delivered request reaches the entry; and what it yields is
+something (`bExpect` is defined for every well-formed entry) -/
+theorem C07_build_pure : C07_build_pure_statement .fresh gunClass ∧
+    ∀ (e : BEntry) (h0 : BHeap), entryOK .fresh e h0 → (bExpect e h0).isSome = true := by
+  refine ⟨?_, fun e h0 hok => (bObs_build_fresh e h0 h0 hok (Ext.refl h0)).2⟩
+  intro e h0 rounds hok hg ob hob
+  exact bRounds_fresh e h0 hok rounds h0 (Ext.refl h0) hg ob hob
+
+/-- the heap of the examples: a URL object (only a caching entry has one), the value slice `["v"]`, the entry's header map
+`{X-A: ["v"]}` -/
+def exBHeap : BHeap := [.url [] [] [47, 97], .slice [[118]], .hmap [([88, 45, 65], 1)]]
+def exBEntry : BEntry := { method := getBytes, urlVal := ([], [], [47, 97]), urlRef := 0, hdr := 2, body := [] }
+
+theorem exBEntry_ok (o : UrlOrigin) : entryOK o exBEntry exBHeap :=
+  ⟨[([88, 45, 65], 1)], rfl, rfl, fun _ => rfl⟩
+
+/-- non-vacuity of `C07_build_pure`: the entry `GET /a` with `X-A: v`, shot three times by a gun that sets scheme and
+resolved host, a middleware that replaces `X-A` and adds a header — all three requests are `GET /a`, `X-A: v` -/
+example : bRounds .fresh exBEntry exBHeap
+    [[.setScheme [104], .setUrlHost [49, 48], .hdrSet [88, 45, 65] [122], .hdrAdd [88, 45, 65] [121], .hdrSet [66] [49]],
+     [.setUrlHost [50], .hdrDel [88, 45, 65]], []]
+    = [bExpect exBEntry exBHeap, bExpect exBEntry exBHeap, bExpect exBEntry exBHeap]
+    ∧ bExpect exBEntry exBHeap = some { method := getBytes, scheme := [], urlHost := [], path := [47, 97], host := [],
+                                        hdrs := [([88, 45, 65], [[118]])], body := [] } := by decide
+
+/-- seeded change C07-r6-1: an entry that caches its parsed `*url.URL` and puts it into every request
+(`UrlOrigin.alias`) is NOT pure — the gun's `req.URL.Host = resolved target` is written into the entry's URL, the next
+request built from the entry goes to that host -/
+theorem C07_build_alias_counterexample : ¬ C07_build_pure_statement .alias gunClass := by
+  intro H
+  have h := H exBEntry exBHeap [[.setUrlHost [49, 48]], []] (exBEntry_ok _) (by decide)
+    (some { method := getBytes, scheme := [], urlHost := [49, 48], path := [47, 97], host := [49, 48], hdrs := [([88, 45, 65], [[118]])], body := [] })
+    (by decide)
+  revert h; decide
+
+/-- … the first request built from such an entry is still right (why no test that looks at one pass notices) -/
+theorem C07_build_alias_partial :
+    (bRounds .alias exBEntry exBHeap [[.setUrlHost [49, 48]], []]).head? = some (bExpect exBEntry exBHeap) := by decide
+
+/-- the value slices of the header map ARE shared between the entry and its requests (`req.Header[key] = values`): an
+in-place write of a slice element — which no gun, middleware or net/http function performs, hence outside `gunClass` —
+would reach the entry even with a fresh URL -/
+theorem C07_build_elem_write_counterexample : ¬ C07_build_pure_statement .fresh (fun _ => true) := by
+  intro H
+  have h := H exBEntry exBHeap [[.elemWrite [88, 45, 65] 0 [122]], []] (exBEntry_ok _) (by decide)
+    (some { method := getBytes, scheme := [], urlHost := [], path := [47, 97], host := [], hdrs := [([88, 45, 65], [[122]])], body := [] })
+    (by decide)
+  revert h; decide
+
+/-- the same for the CURRENT source: the origins regenerated from `BuildRequest` of both ammo types (and everything they
+call inside the module) are `fresh`, so every request built from a decoded entry of /repo is the request the entry denotes,
+whatever guns and middlewares did to the requests built from it before -/
+theorem C07_build_regenerated :
+    C07_build_pure_statement Pandora.Gen.AmmoDec.ammoBuildUrlOrigin gunClass
+      ∧ C07_build_pure_statement Pandora.Gen.AmmoDec.rawAmmoBuildUrlOrigin gunClass
+      ∧ Pandora.Gen.AmmoDec.ammoBuildHdrOrigin = .fresh ∧ Pandora.Gen.AmmoDec.rawAmmoBuildHdrOrigin = .fresh := by
+  obtain ⟨h1, h2, h3, h4⟩ := Pandora.Bridge.C07.buildOrigins_fresh
+  rw [h1, h3]
+  exact ⟨C07_build_pure.1, C07_build_pure.1, h2, h4⟩
+
+/-! ### round 6 — the last size line of a raw file (/repo dbbf16d) -/
+
+/-- why the repair dbbf16d was needed: the raw decoder BEFORE it discarded whatever followed the last newline of the file,
+so a file cut short inside its last size line was accepted silently -/
+theorem C07_unrepaired_raw_drops_last (line : Bytes) (hl : LF ∉ line) : rawPassOld line = ([], .eof) := by
+  unfold rawPassOld
+  cases line with
+  | nil => rw [rawPassF]
+  | cons b r =>
+    have hc := cut_no_sep LF (b :: r) hl
+    rw [rawPassF]
+    simp [hc]
+
+/-- since the repair the last size line is decoded like every other one: a size line that announces `n > 0` bytes at the
+very end of the file (however the size is spelled, whatever the tag and the padding) is the error `failed to read ammo`,
+never an accepted pass -/
+theorem C07_raw_truncated_is_error (sz t pre post : Bytes) (n : Nat) (hs : SizeTok sz n) (hn : 0 < n) (ht : tagOK t = true)
+    (hpre : padOK pre = true) (hpost : padOK post = true) :
+    rawPass (pre ++ (sz ++ tagPart t) ++ post) = ([], .err .shortread) := by
+  obtain ⟨hLF, hf, hr, x, r, hxr⟩ := frameContent_props sz n t hs ht
+  have hline : LF ∉ pre ++ (sz ++ tagPart t) ++ post := by
+    simp only [List.mem_append, not_or] at hLF ⊢
+    exact ⟨⟨padOK_noLF hpre, hLF.1, hLF.2⟩, padOK_noLF hpost⟩
+  have hne : pre ++ (sz ++ tagPart t) ++ post ≠ [] := by rw [hxr]; simp
+  rw [rawPass_lastline' _ hline hne, trimSpace_pad pre _ post (padOK_allWs hpre) (padOK_allWs hpost) hf hr]
+  have hcut := cut_tagPart sz t hs.noSP
+  have hd : rawDecodeHeader (sz ++ tagPart t) = some ((n : Int), t) := by
+    unfold rawDecodeHeader
+    simp only [hcut.1, hcut.2, hs.val]
+  rw [hxr] at hd ⊢
+  unfold rawBlock
+  simp only [hd]
+  have h1 : ¬ ((n : Int) < 0) := by omega
+  have h2 : n ≠ 0 := by omega
+  simp [h1, h2, hn]
+
+/-- non-vacuity: `  5 t` + CR at the end of a file (the corpus witness `5 t`) -/
+example : SizeTok (sizeText {} 5) 5 ∧ tagOK [116] = true ∧ padOK [32, 32] = true ∧ padOK [13] = true
+    ∧ rawPass ([32, 32] ++ (sizeText {} 5 ++ tagPart [116]) ++ [13]) = ([], .err .shortread)
+    ∧ rawPassOld [32, 53, 32, 116, 13] = ([], .eof) :=
+  ⟨sizeText_tok {} 5 (by decide), by decide, by decide, by decide,
+   C07_raw_truncated_is_error _ _ _ _ 5 (sizeText_tok {} 5 (by decide)) (by decide) (by decide) (by decide) (by decide),
+   C07_unrepaired_raw_drops_last _ (by decide)⟩
+
+/-! ### round 6 — the spelling of the size field -/
+
+/-- the size field of a uripost / raw entry may be written with a `+` and with leading zeros (fixed-width sizes): the
+layout records it per entry, all round trips above hold for every such spelling; stated on its own: two files that differ
+only in how their sizes are spelled deliver the same -/
+theorem C07_size_spelling (f : Fmt) (items : List Item) (lay lay' : Layout)
+    (h : wellFormed f items lay) (h' : wellFormed f items lay') (k : Nat) (pre pre' : Bool) :
+    decodeAll f (render f items lay) k pre = decodeAll f (render f items lay') k pre' :=
+  C07_layout_invariant f items lay lay' k pre pre' h h'
+
+/-- non-vacuity: `010 /a t` + ten bytes and `+3 /b` + three bytes (the witness of seeded change C07-r4-1) and the plain
+spelling of the same entries are both well-formed -/
+example : wellFormed .uripost [.req [47, 97] [116] [48, 49, 50, 51, 52, 53, 54, 55, 56, 57], .req [47, 98] [] [97, 98, 99]]
+      { per := [{ szZeros := 1 }, { szPlus := true }] }
+    ∧ wellFormed .uripost [.req [47, 97] [116] [48, 49, 50, 51, 52, 53, 54, 55, 56, 57], .req [47, 98] [] [97, 98, 99]] {} :=
+  ⟨⟨by decide, by decide⟩, ⟨by decide, by decide⟩⟩
 
 end Pandora.Props.C07
